@@ -337,6 +337,15 @@ func (c *Ctx) Fn(spec string) *ssa.Function {
 	return fn
 }
 
+// FnOrCaller is Fn for uses that only need "the function that holds this body" (call-graph roots, scopes): an inlined-away private
+// helper is represented by its only reference caller.
+func (c *Ctx) FnOrCaller(spec string) *ssa.Function {
+	old := c.BodyOnCaller
+	c.BodyOnCaller = true
+	defer func() { c.BodyOnCaller = old }()
+	return c.Fn(spec)
+}
+
 // FnObj is Fn's object form: the *types.Func for a spec.
 func (c *Ctx) FnObj(spec string) *types.Func {
 	slash := strings.LastIndex(spec, "/")
